@@ -427,6 +427,8 @@ type FuncSpec struct {
 	Trusted  bool
 	Pure     bool   // assigns nothing, deterministic in args+heap
 	NoPanic  bool   // generate safety obligations
+	Preserves []*PreserveSpec
+	PreOnly  bool   // only the preconditions are used at call sites; the body is still opened/havocked as if there were no contract
 	Witness  []*Clause // named entry-state terms whose counterexample values the replay generators need
 	NoInline bool
 	OpaqueCallees bool
@@ -443,6 +445,17 @@ type FuncSpec struct {
 
 // Gate: the error return identified by (a prefix of) its message must be taken whenever Cond holds
 // at the branch that guards it, and that branch must dominate every successful return.
+// PreserveSpec: "preserves [props] label: "comp", ... across "callee", ...": the listed heap
+// components are not written (except inside objects the writer allocated) by the listed callees of
+// this function; one obligation per writing instruction found by the transitive write-set analysis.
+type PreserveSpec struct {
+	Label   string
+	Props   []string
+	Comps   []string
+	Callees []string
+	Src     string
+}
+
 type Gate struct {
 	Msg    string
 	Cond   *Clause
@@ -786,6 +799,51 @@ func (db *SpecDB) parseSpecText(text, file, pkgPath string) error {
 			}
 			cur.Pure = true
 			cur.HasAssigns = true
+		case "preserves":
+			if cur == nil {
+				return fail("preserves outside func")
+			}
+			r := strings.TrimSpace(rest)
+			var props []string
+			if strings.HasPrefix(r, "[") {
+				if j := strings.Index(r, "]"); j > 0 {
+					for _, p := range strings.Split(r[1:j], ",") {
+						props = append(props, strings.TrimSpace(p))
+					}
+					r = strings.TrimSpace(r[j+1:])
+				}
+			}
+			i := strings.Index(r, ":")
+			k := strings.Index(r, " across ")
+			if i < 0 || k < i {
+				return fail("preserves label: \"comp\", ... across \"callee\", ...")
+			}
+			quoted := func(s string) []string {
+				var out []string
+				for {
+					a := strings.Index(s, "\"")
+					if a < 0 {
+						break
+					}
+					b := strings.Index(s[a+1:], "\"")
+					if b < 0 {
+						break
+					}
+					out = append(out, s[a+1:a+1+b])
+					s = s[a+b+2:]
+				}
+				return out
+			}
+			ps := &PreserveSpec{Label: strings.TrimSpace(r[:i]), Props: props, Comps: quoted(r[i+1 : k]), Callees: quoted(r[k+8:]), Src: r}
+			if len(ps.Comps) == 0 || len(ps.Callees) == 0 {
+				return fail("preserves: needs components and callees")
+			}
+			cur.Preserves = append(cur.Preserves, ps)
+		case "pre-only":
+			if cur == nil {
+				return fail("pre-only outside func")
+			}
+			cur.PreOnly = true
 		case "witness":
 			// witness name: expr — a term over the entry state reported with every counterexample
 			if cur == nil {
